@@ -450,10 +450,11 @@ TIES = {
     'ReturnPath': dict(props=['C08', 'C17'], gen=['ReturnHandlerCall', 'TraceReturnVoid', 'TraceReturnValue'],
                        theorems=['return_path_tie', 'return_evaluated_once'],
                        cxx='return_handler_t::call and the two trace_return<Ret> helpers (mock.hpp): the RETURN functor is evaluated once'),
-    'Compare': dict(props=['C10'], gen=['CompareTable', 'ParamMatchesMatcher', 'ParamMatchesValue', 'PredicateMatches'],
-                    theorems=['compare_table_tie', 'opOf_cmp', 'compare_matcher_tie', 'param_matches_matcher_tie', 'param_matches_value_tie'],
+    'Compare': dict(props=['C10'], gen=['CompareTable', 'ParamMatchesMatcher', 'ParamMatchesValue', 'PredicateMatches', 'MemberIsCheck', 'AnyPredicate'],
+                    theorems=['compare_table_tie', 'opOf_cmp', 'compare_matcher_tie', 'param_matches_matcher_tie', 'param_matches_value_tie',
+                              'member_is_tie', 'any_predicate_tie'],
                     cxx='eq/ne/lt/le/gt/ge: the functor macro and the function table of matcher/compare.hpp, predicate_matcher::matches_ '
-                        '(matcher.hpp), param_matches_impl for matchers and for plain values (mock.hpp)'),
+                        '(matcher.hpp), param_matches_impl for matchers and for plain values (mock.hpp), member_is_matcher, any_predicate'),
     'RingScripts': dict(props=['C14'], gen=['RunActions', 'Notify', 'Decommission', 'ExpectationsDtor'],
                         theorems=['run_actions_list_script', 'run_actions_heap', 'run_actions_seq_script', 'run_actions_seq_heap',
                                   'notify_seq_script', 'notify_seq_heap', 'decommission_list_script', 'expectations_dtor_list_script',
